@@ -46,3 +46,26 @@ def check_normalised():
     mean = sp.integrate(sp.exp(u) * lpdf_u, (u, -sp.oo, sp.oo)).rewrite(sp.erf)
     out.append(('LogNormal mean is exp(mu + s^2/2)', sp.simplify(sp.expand(mean) - sp.exp(mu + s ** 2 / 2)) == 0))
     return out
+
+
+def generalise(model, fields, getters=()):
+    """the contracts run the real methods of an object whose *size fields* are replaced by symbols (the constructor cannot take a symbolic
+    n_dim / n_ids).  If the tree under check keeps its sizes in other private fields (a refactoring), the generalisation is not possible:
+    the obligations of that class are undecided (Unsupported), never a fault or a violation.  getters: (method name, expected value) pairs
+    that must report the symbolic sizes afterwards."""
+    from pvc.sym import Unsupported, w
+    import sympy as sp
+    for name in fields:
+        if not hasattr(model, name):
+            raise Unsupported('the size field %s that the contract generalises to a symbol does not exist in this tree (private representation changed)' % name)
+    for name, value in fields.items():
+        setattr(model, name, value)
+    for meth, want in getters:
+        try:
+            got = getattr(model, meth)()
+            ok = sp.expand(w(got) - w(want)) == 0
+        except Exception:
+            ok = False
+        if not ok:
+            raise Unsupported('%s() does not report the symbolic size after the size fields were generalised (private representation changed)' % meth)
+    return model
